@@ -124,7 +124,9 @@ func New(dir string, ln net.Listener, opt Options) (*Node, error) {
 	n.Service = coordinator.NewService(ccfg)
 	n.Service.Listener = n.Mux.Listen(coordinator.MuxHeader)
 	n.Service.DefaultListener = n.Mux.DefaultListener()
-	n.Service.TSDBStore = clusterStore
+	// the inter-node service answers for this node's own store, as in cmd/influxd/run (the
+	// cluster store, which fans out, belongs to the statement executor only)
+	n.Service.TSDBStore = n.Store
 	n.Service.MetaClient = n.Meta
 	n.Service.TaskManager = n.Executor.TaskManager
 	n.Service.Store = storage.NewStore(n.Store, n.Meta)
